@@ -53,11 +53,22 @@ def load_known():
     return out
 
 
+# Export shims that the harness files of a directory need in another package (always overlaid
+# together with that directory's harness files, so that the package compiles).
+HDIR_XFILES = {
+    "mysql": {"ariga.io/atlas/schemahcl": ["harness/x_schemahcl/zz_verif_export.go"]},
+    "postgres": {"ariga.io/atlas/schemahcl": ["harness/x_schemahcl/zz_verif_export.go"]},
+    "sqlite": {"ariga.io/atlas/schemahcl": ["harness/x_schemahcl/zz_verif_export.go"]},
+}
+
+
 def run_cfg(prop, run):
     cfg = dict(PROPS[prop])
-    for k in ("pkg", "hdir", "module"):
+    for k in ("pkg", "hdir", "module", "xfiles", "initallow"):
         if k in run:
             cfg[k] = run[k]
+    if "xfiles" not in cfg and cfg.get("hdir") in HDIR_XFILES:
+        cfg["xfiles"] = HDIR_XFILES[cfg["hdir"]]
     return cfg
 
 
@@ -74,6 +85,11 @@ def run_symgo(prop, run, tier, known_keys):
         cmd += ["-cross"]
     for k, v in run.get("stubs", {}).items():
         cmd += ["-stub", f"{k}={v}"]
+    for ip, fs in cfg.get("xfiles", {}).items():
+        for f in fs:
+            cmd += ["-xfile", f"{ip}={os.path.join(VERIF, f)}"]
+    if cfg.get("initallow"):
+        cmd += ["-initallow", ",".join(cfg["initallow"])]
     env = goenv(cfg.get("module", ""))
     env["VERIF_KNOWN"] = ",".join(sorted(known_keys))
     t0 = time.time()
@@ -149,6 +165,13 @@ class Replayer:
         repl = {os.path.join(pkgdir, "zz_verif_replay_test.go"): testfile}
         for f in harness_files(cfg["hdir"]):
             repl[os.path.join(pkgdir, os.path.basename(f))] = f
+        for ip, fs in cfg.get("xfiles", {}).items():
+            o2 = subprocess.run(["go", "list", "-f", "{{.Dir}}", ip], cwd=moddir, env=env, stdout=subprocess.PIPE, stderr=subprocess.PIPE, text=True)
+            l2 = [l for l in o2.stdout.splitlines() if l and not l.startswith("WARNING")]
+            if not l2:
+                raise RuntimeError("go list failed for xfile package: " + o2.stderr)
+            for f in fs:
+                repl[os.path.join(l2[-1], os.path.basename(f))] = os.path.join(VERIF, f)
         ov = os.path.join(self.tmp, f"overlay_{harness}.json")
         json.dump({"Replace": repl}, open(ov, "w"))
         binp = os.path.join(self.tmp, f"replay_{harness}.test")
